@@ -125,7 +125,15 @@ def _drain_dead_ends(eps):
             "q0": "i", "F": ["f"], "eps": eps}
 
 
-TEMPLATES = [_anbn, _pal, _nonempty_stack, _replace, _diamond, _replace_only, _counter_and_sink, _drain_dead_ends]
+def _guarded_lap(eps):
+    # a^n b (n >= 1): an eps-cycle s -> t -> s with a net push ($) that can be taken only once, because its first move peeks at a B on top of the stack
+    # and the cycle itself buries that B; acceptance needs exactly one lap.  The configuration after the lap has the same state and a longer stack.
+    return {"Q": ["s", "t", "f"], "S": ["a", "b"], "G": ["B", "$"],
+            "d": [["s", "a", eps, "s", "B"], ["s", eps, "B", "t", "B"], ["t", eps, eps, "s", "$"], ["s", "b", "$", "f", eps]],
+            "q0": "s", "F": ["f"], "eps": eps}
+
+
+TEMPLATES = [_guarded_lap, _anbn, _pal, _nonempty_stack, _replace, _diamond, _replace_only, _counter_and_sink, _drain_dead_ends]
 def _ambiguous_stacks2(eps):
     # the stacks [XY] (after a) and [X, Y] (after b) in the same state spell the same text; a continues only from the first, b only from the second: {aa, bb}
     return {"Q": ["q0", "p", "q1", "g", "f"], "S": ["a", "b"], "G": ["X", "Y", "XY"],
